@@ -99,9 +99,24 @@ def wiring(env, symmetry):
     tl = env.comp("tl", lambda: cls("aerodynamics.total_lift.TotalLift")(surface=s))
     i = tl.inputs()
     env.eq("C18", "surface CL == CL1 + CL0", s0(tl.compute(i)["CL"]), s0(i["CL1"]) + s["CL0"])
-    td = env.comp("td", lambda: cls("aerodynamics.total_drag.TotalDrag")(surface=s))
-    i = td.inputs()
-    env.eq("C18", "surface CD == CDi + CDv + CDw + CD0", s0(td.compute(i)["CD"]), s0(i["CDi"]) + s0(i["CDv"]) + s0(i["CDw"]) + s["CD0"])
+    # the drag build-up adds whatever each estimate reports, for every combination of the two switches (an estimate that is
+    # off reports exactly zero: c18.off)
+    for wv in (True, False):
+        for ww in (True, False):
+            sc = surface(name="wing", nx=2, ny=3, symmetry=symmetry, with_viscous=wv, with_wave=ww)
+            td = env.comp("td.%s.%s" % (wv, ww), lambda sc=sc: cls("aerodynamics.total_drag.TotalDrag")(surface=sc))
+            i = dict(td.inputs())
+            if not wv:
+                i["CDv"] = 0 * i["CDv"]             # an estimate that is off reports exactly zero (c18.off)
+            if not ww:
+                i["CDw"] = 0 * i["CDw"]
+            env.eq("C18", "surface CD == CDi + CDv + CDw + CD0 [viscous %s, wave %s]" % (wv, ww),
+                   s0(td.compute(i)["CD"]), s0(i["CDi"]) + s0(i["CDv"]) + s0(i["CDw"]) + sc["CD0"])
+            jac = td.partials(i)
+            for k, on in ((("CD", "CDi"), True), (("CD", "CDv"), wv), (("CD", "CDw"), ww)):
+                if on:                  # (the derivative with respect to an estimate that is switched off is immaterial)
+                    d = jac.dense(k) if k in td.jinfo else np.zeros((1, 1))
+                    env.eq("C18", "d%s/d%s == 1 [viscous %s, wave %s]" % (k + (wv, ww)), d, 1 + 0 * d)
 
 
 @job("c18.viscous", ("C18", "C20"), cfgs=[dict(k_lam=0.05), dict(k_lam=0.0), dict(k_lam=1.0), dict(k_lam=0.5, _tier=T)], ranges=RG, cost=10)
